@@ -187,5 +187,5 @@ def check_mono(case, rec):
                          index=i, pair=[a, b], kind="less_severe", test=name)
 
 
-SUBS = [Sub("monotone", mono_case, check_mono, quick=3500, thorough=70000)]
+SUBS = [Sub("monotone", mono_case, check_mono, quick=6000, thorough=70000)]
 REQUIRED_CLASSES = ["monotone:flag_changed", "monotone:fail_then_suspect_added"] + [f"monotone:test={t}" for t in TESTS]
